@@ -45,24 +45,38 @@ class Engine:
         self.npaths = 0
         self.unknowns = 0
         self.steps = 0
+        self._live = False
 
     # ---- solver ----
     def check(self, *extra, pc=None):
+        """Satisfiability of the current path condition (or an explicit pc) plus extra constraints.
+
+        During exploration the solver holds the live path condition incrementally (see _push_pc) and `extra` is
+        passed as assumptions; with an explicit pc a fresh frame is used."""
         t = time.time()
-        self.s.push()
-        for c in (self.pc if pc is None else pc):
-            self.s.add(c)
-        for c in extra:
-            self.s.add(c)
-        r = self.s.check()
-        m = self.s.model() if r == z3.sat else None
-        self.s.pop()
+        if pc is None and self._live:
+            r = self.s.check(*extra)
+            m = self.s.model() if r == z3.sat else None
+        else:
+            self.s.push()
+            for c in (self.pc if pc is None else pc):
+                self.s.add(c)
+            for c in extra:
+                self.s.add(c)
+            r = self.s.check()
+            m = self.s.model() if r == z3.sat else None
+            self.s.pop()
         self.nchecks += 1
         self.solver_time += time.time() - t
         r = str(r)
         if r == "unknown":
             self.unknowns += 1
         return r, m
+
+    def _add_pc(self, c):
+        self.pc.append(c)
+        if self._live:
+            self.s.add(c)
 
     def branch(self, cond) -> bool:
         cond = z3.simplify(cond)
@@ -89,7 +103,7 @@ class Engine:
             else:
                 raise PathAbort()
         self.pos += 1
-        self.pc.append(cond if take else z3.Not(cond))
+        self._add_pc(cond if take else z3.Not(cond))
         return take
 
     def assume(self, cond):
@@ -97,7 +111,7 @@ class Engine:
         cond = z3.simplify(cond)
         if z3.is_true(cond):
             return
-        self.pc.append(cond)
+        self._add_pc(cond)
         r, _ = self.check()
         if r == "unknown":
             raise EngineLimit("solver unknown in assume")
@@ -113,6 +127,10 @@ class Engine:
             self.pos = 0
             self.pc = list(assumptions)
             Engine.cur = self
+            self.s.push()
+            for c in self.pc:
+                self.s.add(c)
+            self._live = True
             try:
                 out = ("ret", fn())
             except PathAbort:
@@ -125,6 +143,8 @@ class Engine:
                 out = ("exc", e)
             finally:
                 Engine.cur = None
+                self._live = False
+                self.s.pop()
             if out is not None:
                 self.npaths += 1
                 if self.npaths > self.max_paths:
@@ -824,15 +844,17 @@ def uninstall(mod, names):
 class Coverage:
     """Records qualified names of functions of the repository entered while active."""
 
-    def __init__(self, roots=("/repo/",)):
-        self.roots = roots
+    def __init__(self, roots=None):
+        import os
+        self.root = os.environ.get("VERIF_REPO", "/repo").rstrip("/") + "/"
+        self.roots = roots or (self.root,)
         self.seen = set()
 
     def _prof(self, frame, event, arg):
         if event == "call":
             fn = frame.f_code.co_filename
             if fn.startswith(self.roots):
-                self.seen.add(fn.replace("/repo/", "") + ":" + frame.f_code.co_qualname)
+                self.seen.add(fn.replace(self.root, "") + ":" + frame.f_code.co_qualname)
 
     def __enter__(self):
         sys.setprofile(self._prof)
